@@ -95,8 +95,10 @@ def drive(tier):
     cand = []
     from bitcoin.wallet import CKey
     for sec in keys[:4]:
-        unc = bytes(CKey(sec, False).pub)
-        cmp_ = bytes(CKey(sec, True).pub)
+        kk, pair = call(lambda: (bytes(CKey(sec, False).pub), bytes(CKey(sec, True).pub)))
+        if kk == "exc":
+            continue            # already reported through key.pub
+        unc, cmp_ = pair
         x, y = unc[1:33], unc[33:]
         par = y[-1] & 1
         cand += [cmp_, unc, bytes([6 + par]) + x + y, bytes([7 - par]) + x + y, bytes([2 + (1 - par)]) + x,
